@@ -84,6 +84,15 @@ type Clo struct {
 	Recv Val // bound method receiver, if any
 }
 
+// CloSet is a function value that is one of several statically known
+// closures; the first alternative whose condition holds is the value.
+type CloSet struct{ Alts []cloAlt }
+
+type cloAlt struct {
+	Cond string
+	C    Clo
+}
+
 // MapV is a Go map: reference to the map object (0 = nil map).
 type MapV struct{ Ref string }
 
